@@ -111,6 +111,45 @@ def _atomic_store_of(ctx, rr, b, field, want, label):
             rr.fail("%s:return-without-height-store" % label, "`%s` can return without updating %s" % (shortfn(b.id), field), where=b.span)
 
 
+def _status_possible(ctx, facts, dterm, built):
+    """variants a ConfirmationStatus value (origin term dterm) can still have given the facts met on a path: variant tests on
+    it and truth values of predicates (accepted(), ...) applied to it, judged with the predicates' own tables"""
+    from .tables import enum_pred_table
+    P = ctx.prog
+    poss = set(built)
+    for ft in facts:
+        subj = og.strip(ft[1])
+        if ft[0] == "variant" and subj == dterm:
+            poss &= {ft[2]}
+        elif ft[0] == "variant_in" and subj == dterm:
+            poss &= set(ft[2])
+        elif ft[0] == "truth":
+            raw = ft[1]
+            pred = args_ = None
+            if isinstance(raw, tuple) and raw and raw[0] == "ret" and raw[1] in P.bodies:
+                pred, args_ = raw[1], raw[4]
+            elif isinstance(subj, tuple) and subj and subj[0] == "call" and subj[1] in P.bodies:
+                pred, args_ = subj[1], subj[2]
+            if pred and args_ and og.strip(args_[0]) == dterm:
+                tb = enum_pred_table(ctx, pred) or {}
+                poss &= {v_ for v_ in poss if tb.get(v_) in (ft[2], None)}
+    return poss
+
+
+def _status_built(ctx, fn, depth=0):
+    """ConfirmationStatus variants a function can return (aggregates in its return origin, plus those of status-returning callees)"""
+    P = ctx.prog
+    b = P.bodies.get(fn)
+    if b is None or depth > 3:
+        return set()
+    rt = ctx.og.local(b, 0)
+    out = {x[2] for x in og.walk(rt) if isinstance(x, tuple) and x and x[0] == "agg" and x[1].endswith("ConfirmationStatus")}
+    for c in og.calls_in(rt):
+        if c != fn and c in P.bodies and P.bodies[c].locals[0]["ty"].endswith("ConfirmationStatus"):
+            out |= _status_built(ctx, c, depth + 1)
+    return out
+
+
 def rule_OR2_watcher(ctx, tier):
     rr = RuleResult("OR2w", "Watcher block pipeline: cache update, DB intersection, decrypt, hand-over, failures to the delete list — on all paths")
     P = ctx.prog
@@ -229,6 +268,28 @@ def rule_OR2_watcher(ctx, tier):
                 rr.ok("hb:loop " + name)
             else:
                 rr.fail("hb:early-exit:" + name, "handle_breaches can leave a loop before every (locator, uuid) pair has been handled (a `break`/`return` on the %s path)" % name, where=h.line_of(starts[0]))
+    # the late-trigger path (store_triggered_appointment): the stored appointment is given up only when the Responder
+    # answered Rejected — "already on chain" (IrrevocablyResolved) is not a refusal
+    stt = P.bodies.get(W + "store_triggered_appointment")
+    if stt is None:
+        rr.anchor_missing(W + "store_triggered_appointment")
+    else:
+        from .rulekit import enumerate_paths
+        hbs = sites(stt, RSP + "handle_breach")
+        dels = sites(stt, GK + "delete_appointments")
+        built = _status_built(ctx, RSP + "handle_breach")
+        if len(hbs) != 1 or not dels or not built:
+            rr.fail("st:shape", "store_triggered_appointment: expected one handle_breach call and a delete_appointments call (found %d / %d; verdicts %s)" % (len(hbs), len(dels), sorted(built)), where=stt.span)
+        else:
+            dterm = og.strip(ctx.og.operand(stt, {"m": stt.term(hbs[0])["dest"]}))
+            bad = set()
+            for path, facts, at_ret in enumerate_paths(ctx, stt, stt.succ(hbs[0]), stop=lambda x: x in dels, budget=20000):
+                if path and path[-1] in dels:
+                    bad |= _status_possible(ctx, facts, dterm, built) - {"Rejected"}
+            if not bad:
+                rr.ok("late trigger: the appointment is deleted only if handle_breach answered Rejected (verdicts it can give: %s)" % sorted(built))
+            else:
+                rr.fail("st:deleted-without-rejection:%s" % ",".join(sorted(bad)), "`store_triggered_appointment` deletes the appointment it has just stored when the Responder answers %s: the user gets a receipt for an appointment the tower neither holds nor tracks although the node refused nothing" % sorted(bad), where=stt.line_of(dels[0]))
     rr.require_floor(18, "OR2w instances")
     return rr
 
@@ -648,9 +709,13 @@ def rule_OR3(ctx, tier):
             rr.fail("checkpoint-unguarded", "the last known block is persisted on a path where the SPV poll did not return Ok(ChainTip::Better(_)) (Ok=%s, Better=%s): a crash would skip blocks that were never delivered to the listeners" % (okv, better), where=pb.line_of(bb))
         a = arg_origin(ctx, pb, bb, 1)
         if has_call(a, "SpvClient", "poll_best_tip") and has_call(a, "block_hash"):
-            rr.ok("checkpoint = hash of the new best tip")
+            # SpvClient::poll_best_tip answers Ok(Better(target)) whether the listeners were brought to `target`, part of the
+            # way (a block download failed half way) or nowhere: the target tip is not what the listeners have processed
+            rr.fail("checkpoint-ahead-of-listeners", "the block persisted as the tower's last known block is the TARGET tip returned by SpvClient::poll_best_tip, whatever part of the backlog was actually delivered to the listeners: after a failed block download followed by a restart, the blocks in between are never processed", where=pb.line_of(bb))
+        elif has_call(a, "block_hash") or "header" in og.show(a):
+            rr.ok("checkpoint derived from a header other than the poll's target tip", nontrivial=False)
         else:
-            rr.fail("checkpoint-value", "the persisted hash is `%s`, not the hash of the tip the poll returned" % og.show(a)[:120], where=pb.line_of(bb))
+            rr.fail("checkpoint-value", "the persisted hash is `%s`: not the hash of a block header" % og.show(a)[:120], where=pb.line_of(bb))
     for sw, succ in switch_succ_with(ctx, pb, "variant", "Better", "SpvClient", "poll_best_tip"):
         if always_reaches(pb, [succ], ss):
             rr.ok("Better(tip) -> persisted")
@@ -1117,4 +1182,16 @@ def rule_TX(ctx, tier):
     else:
         rr.fail("new:size", "TxIndex::new does not take its size from the block slice / tip from the height", where=n.span)
     rr.require_floor(18, "TX instances")
+    return rr
+
+
+def rule_OR3_config(ctx, tier):
+    """the start-up clauses of OR3 that concern the configuration (claimed under C20): the others are C03's"""
+    rr = rule_OR3(ctx, tier)
+    keep = ("db-before-config", "key-", "anchor-missing", "floor:", "api-before-catch-up")
+    rr.findings = [f for f in rr.findings if f.key.startswith(keep)]
+    rr.rule = "OR3c"
+    for f in rr.findings:
+        f.rule = "OR3c"
+    rr.title = "start-up: configuration verified before the database is opened; tower key regenerated only on request"
     return rr
